@@ -53,6 +53,8 @@ class Conn:
         self.message_timeout = message_timeout
         self.task = None
         self.send_error = None  # exception class to raise from ws_send (fault)
+        self.send_gate = None  # asyncio.Event: while it is clear, ws_send blocks (a peer that does not read)
+        self.sends_stalled = 0
 
     # ---- the three callables handed to the relay ------------------------------------
     async def ws_recv(self):
@@ -74,6 +76,12 @@ class Conn:
         self.frames.append((n, text))
         if self.send_error is not None:
             raise self.send_error
+        if self.send_gate is not None and not self.send_gate.is_set():
+            self.sends_stalled += 1
+            try:
+                await self.send_gate.wait()
+            finally:
+                self.sends_stalled -= 1
         if self.send_delay is not None:
             self.sends_in_flight += 1
             try:
